@@ -114,4 +114,101 @@ theorem delFixLoop_spec (n : Nat) : ∀ (k : Nat) (ctx : Ctx) (xl : Sh) (x : Nat
       rw [c5, e5]
       exact b6
 
+/-! ### the whole fix-up -/
+
+/-- the call of `_rb_delete_fixup(tree_vals, tree_nodes, root, x)` (the branch taken when a black node was spliced
+    out and `x` is not NIL) -/
+def delFixThen : St :=
+  (.seq (.setI "_rb_delete_fixup17$root" (.var "root"))
+  (.seq (.setI "_rb_delete_fixup17$x" (.var "x"))
+  (.seq (.scope (.seq delFixLoop delFixEnd))
+  (.setI "root" (.var "_rb_delete_fixup17$ret0")))))
+
+theorem delFixCall_eq : delFixCall =
+    .ite (.and (.cmpI .eq (.ld2 "tree_nodes" (.var "y") (.lit 0)) (.lit 1)) (.cmpI .ne (.var "x") (.lit (-1))))
+      delFixThen .skip := rfl
+
+/-- **`_rb_delete_fixup` inlined**, started with `x` at the position `ctx` of a well-linked tree with sane colour
+    cells: the arrays afterwards hold `rbDelFix` of the abstraction; linkage, the NIL row and the colour sanity are
+    kept -/
+theorem delFixThen_spec (fuel n : Nat) (s : State F) (xl : Sh) (x : Nat) (xr : Sh) (ctx : Ctx) (hv : VS s n)
+    (hrun : s.ctl = .run) (hL : Linked (s.ia "tree_nodes") n (-1) (plug (.node xl x xr) ctx))
+    (hN : (plug (.node xl x xr) ctx).idxs.Nodup) (hx : s.ienv "x" = x)
+    (hroot : s.ienv "root" = (plug (.node xl x xr) ctx).ptr) (hnil : nAt (s.ia "tree_nodes") (n - 1) 0 = 1)
+    (hcol : ∀ j ∈ (plug (.node xl x xr) ctx).idxs, ColV (nAt (s.ia "tree_nodes") j 0))
+    (hf : ctx.length + 2 ≤ fuel) :
+    let r := exec fuel delFixThen s
+    let S : Fv F := vAt (s.fa "tree_vals") (n - 1) 7
+    r.ctl = .run ∧ VS r n ∧ ∃ sh' : Sh, Linked (r.ia "tree_nodes") n (-1) sh' ∧
+      sh'.idxs = (plug (.node xl x xr) ctx).idxs ∧
+      absT (r.fa "tree_vals") (r.ia "tree_nodes") sh' =
+        rbDelFix S (ctx.map Fr.dir) (absT (s.fa "tree_vals") (s.ia "tree_nodes") (plug (.node xl x xr) ctx)) ∧
+      r.ienv "root" = sh'.ptr ∧ vAt (r.fa "tree_vals") (n - 1) 7 = S ∧
+      nAt (r.ia "tree_nodes") (n - 1) 0 = 1 ∧ (∀ j ∈ sh'.idxs, ColV (nAt (r.ia "tree_nodes") j 0)) := by
+  intro r S
+  have h1 : exec fuel (.setI "_rb_delete_fixup17$root" (.var "root")) s =
+      { s with ienv := setS s.ienv "_rb_delete_fixup17$root" (plug (.node xl x xr) ctx).ptr } := by
+    rw [exec_setI _ _ _ _ (IE.ok_var _ _), IE.eval_var, hroot]
+  generalize hs1 : ({ s with ienv := setS s.ienv "_rb_delete_fixup17$root" (plug (.node xl x xr) ctx).ptr } : State F) = s1 at h1
+  have h2 : exec fuel (.setI "_rb_delete_fixup17$x" (.var "x")) s1 =
+      { s1 with ienv := setS s1.ienv "_rb_delete_fixup17$x" (x : Int) } := by
+    rw [exec_setI _ _ _ _ (IE.ok_var _ _), IE.eval_var, ← hs1]; simp [setS, hx]
+  generalize hs2 : ({ s1 with ienv := setS s1.ienv "_rb_delete_fixup17$x" (x : Int) } : State F) = s2 at h2
+  have hv2 : VS s2 n := by rw [← hs2, ← hs1]; exact hv.of_eq rfl rfl rfl
+  have hrun2 : s2.ctl = .run := by rw [← hs2, ← hs1]; exact hrun
+  have hia2 : s2.ia = s.ia := by rw [← hs2, ← hs1]
+  have hfa2 : s2.fa = s.fa := by rw [← hs2, ← hs1]
+  have hcore2 : DFCore s2 n xl x xr ctx :=
+    ⟨hv2, hrun2, by rw [hia2]; exact hL, hN, by rw [← hs2]; simp [setS], by rw [← hs2, ← hs1]; simp [setS],
+     by rw [hia2]; exact hnil, by rw [hia2]; exact hcol⟩
+  -- the loop
+  obtain ⟨fuel, rfl⟩ : ∃ f, fuel = f + 1 := ⟨fuel - 1, by omega⟩
+  obtain ⟨c1, xl4, x4, xr4, ctx4, c2, c3, c4, c5⟩ := delFixLoop_spec n ctx.length ctx xl x xr (fuel + 1) s2 hcore2
+    (Or.inl (Nat.le_refl _)) (by omega)
+  generalize hs4 : exec (fuel + 1) delFixLoop s2 = s4 at c1 c2 c4 c5
+  rw [hfa2] at c4 c5
+  rw [hia2] at c5
+  -- `x` is blackened
+  obtain ⟨d1, d2, d3, d4, d5, d6, d7, d8⟩ := stCol_at (fuel + 1) n s4 c2.vs c2.run "_rb_delete_fixup17$x" 1 ctx4 xl4 x4 xr4
+    c2.linked c2.nodup c2.hx
+  generalize hs5 : exec (fuel + 1) (.stI2 "tree_nodes" (.var "_rb_delete_fixup17$x") (.lit 0) (.lit 1)) s4 = s5 at d1 d2 d3 d4 d5 d6 d7 d8
+  have hx4n : x4 + 1 < n := Linked.idx_lt c2.linked x4 (mem_plug _ ctx4 _ (by simp [Sh.idxs]))
+  have hend : exec (fuel + 1) delFixEnd s4 =
+      { s5 with ienv := setS s5.ienv "_rb_delete_fixup17$ret0" (plug (.node xl4 x4 xr4) ctx4).ptr, ctl := .ret } := by
+    simp only [delFixEnd]
+    rw [exec_seq_run _ _ _ _ (by rw [hs5]; exact d1), hs5, exec_seq_run _ _ _ _ (by
+      rw [exec_setI _ _ _ _ (IE.ok_var _ _)]; exact d1), exec_setI _ _ _ _ (IE.ok_var _ _), IE.eval_var, exec_ret, d3, c2.hroot]
+  have hscope : exec (fuel + 1) (.scope (.seq delFixLoop delFixEnd)) s2 =
+      { s5 with ienv := setS s5.ienv "_rb_delete_fixup17$ret0" (plug (.node xl4 x4 xr4) ctx4).ptr, ctl := .run } := by
+    rw [exec_scope, exec_seq_run _ _ _ _ (by rw [hs4]; exact c1), hs4, hend]
+    simp
+  have hr : r = { s5 with
+      ienv := (setS (setS s5.ienv "_rb_delete_fixup17$ret0" (plug (.node xl4 x4 xr4) ctx4).ptr) "root" (plug (.node xl4 x4 xr4) ctx4).ptr),
+      ctl := .run } := by
+    simp only [r, delFixThen]
+    rw [exec_seq_run _ _ _ _ (by rw [h1, ← hs1]; exact hrun), h1, exec_seq_run _ _ _ _ (by rw [h2]; exact hrun2), h2,
+      exec_seq_run _ _ _ _ (by rw [hscope]), hscope, exec_setI _ _ _ _ (IE.ok_var _ _), IE.eval_var]
+    simp [setS]
+  have hd1 : decide ((1 : Int) = 0) = false := by decide
+  rw [hd1] at d6
+  rw [hr]
+  refine ⟨rfl, ⟨d2.shpV, d2.shpN, d2.lenV, d2.lenN, d2.pos⟩, plug (.node xl4 x4 xr4) ctx4, d5, c3, ?_, by simp [setS], ?_, ?_, ?_⟩
+  · show absT (s5.fa "tree_vals") (s5.ia "tree_nodes") _ = _
+    rw [d6]
+    unfold rbDelFix
+    rw [← c5]
+    show _ = atPath (setCol false) (ctx4.map Fr.dir).reverse _
+    rw [map_dir_reverse]
+  · show vAt (s5.fa "tree_vals") (n - 1) 7 = S
+    rw [d4, c4]
+  · show nAt (s5.ia "tree_nodes") (n - 1) 0 = 1
+    rw [d7 _ 0 (by decide) (by omega)]
+    exact c2.nilBlack
+  · intro j hj
+    show ColV (nAt (s5.ia "tree_nodes") j 0)
+    by_cases hj4 : j = x4
+    · rw [hj4, d8]; exact colV_one
+    · rw [d7 j 0 (by decide) (fun e => hj4 e.1)]
+      exact c2.colOK j hj
+
 end XrsVerif.ILVs
